@@ -49,7 +49,7 @@ func (c *VC) emitSpecAxiom(fi *FuncInfo) {
 	for i, p := range ps {
 		if u, ok := p.Type().Underlying().(*types.Slice); ok {
 			es := c.sortOf(u.Elem())
-			hn, h := c.sliceHeap(st, es)
+			hn, h := c.sliceHeap(st, u.Elem())
 			row := c.boundVar("row", arraySort(c.idxSort(), es))
 			bvars = append(bvars, row)
 			rows = append(rows, row)
